@@ -12,7 +12,7 @@ import seedtest  # noqa: E402
 
 VERIF = seedtest.VERIF
 FIXES = [("10e9daa", ["C07"]), ("aab8232", ["C03", "C04"]), ("54cf653", ["C13"]), ("dcff2a1", ["C17"]), ("b60ed29", ["C17"]),
-         ("c240a2c", ["C09"]), ("f41eb8c", ["C05", "C15"]), ("636f27d", ["C11"]), ("f211346", ["C02"]), ("24b787d", ["C09"]), ("8c8093e", ["C15"]), ("29321c7", ["C12"]), ("cc07eac", ["C11"]), ("3001f79", ["C14"]), ("80e0b49", ["C14"]), ("bd60111", ["C11"])]
+         ("c240a2c", ["C09"]), ("f41eb8c", ["C05", "C15"]), ("636f27d", ["C11"]), ("f211346", ["C02"]), ("24b787d", ["C09"]), ("8c8093e", ["C15"]), ("29321c7", ["C12"]), ("cc07eac..bd60111", ["C11"]), ("3001f79", ["C14"]), ("80e0b49", ["C14"]), ("bd60111", ["C11"]), ("d696f9e", ["C16"])]
 
 
 def sh(cmd, cwd=VERIF, timeout=7200):
@@ -34,6 +34,24 @@ def thorough():
 def fixes():
     out = {}
     for commit, props in FIXES:
+        if ".." in commit:
+            # a repair and its follow-up on the same lines (cc07eac, then bd60111): the whole repair is reverted
+            first, last = commit.split("..")
+            patch = "/var/tmp/fix_%s.diff" % first
+            rpatch = patch + ".rev"
+            # reverse-apply the follow-up, then the repair, and hand the resulting difference to detect()
+            for c_ in (last, first):
+                sh("git -C /repo diff %s~1 %s > %s" % (c_, c_, patch))
+                rc, o = sh("git -C /repo apply -R %s" % patch)
+                assert rc == 0, o
+            sh("git -C /repo diff > %s" % rpatch)
+            sh("git -C /repo checkout -- .")
+            os.remove(patch)
+            res = seedtest.detect(rpatch, props)
+            out[commit] = {"reverted": True, "checks": {k: {"exit": v["rc"], "first": v["summary"][:2]} for k, v in res.items()}}
+            print(commit, {k: v["rc"] for k, v in res.items()}, flush=True)
+            os.remove(rpatch)
+            continue
         patch = "/var/tmp/fix_%s.diff" % commit
         sh("git -C /repo diff %s~1 %s > %s" % (commit, commit, patch))
         rc, o = sh("git -C /repo apply -R --check %s" % patch)
